@@ -63,6 +63,10 @@ pub fn instances() -> Vec<Instance> {
         push(format!("4{kw}"), RefKind::Id, *kw == "in");
         push(format!("07{kw}"), RefKind::Id, false);
     }
+    // identifiers whose leading digits would not fit any integer type
+    for w in ["99999999999999999999x", "18446744073709551616_big", "18446744073709551615x", "123456789012345678901234567890a"] {
+        push(w.to_string(), RefKind::Id, false);
+    }
     for b in ["9223372036854775807", "-9223372036854775808", "18446744073709551615", "+18446744073709551615"] {
         push(b.to_string(), RefKind::Int, false);
     }
